@@ -87,7 +87,7 @@ const DefaultBudget = 20_000_000_000
 func setFlags(c Case) {
 	utils.DebugFlags = c.Mode == "debug"
 	utils.PackFlags = !c.Variant.Unpack
-	utils.HttpDebug = false
+	utils.HttpDebug = c.Variant.Http
 	utils.ObjectMode = c.Variant.Object
 	utils.DebugPackTab = false
 	utils.GenDotGraph = false
